@@ -4,7 +4,7 @@ import json
 from hypothesis import strategies as st
 
 from vlib import gen, stores
-from vlib.runner import Violation, sut
+from vlib.runner import Stats, Violation, sut
 
 ID = "C05"
 RULE = (
@@ -215,3 +215,52 @@ def run_case(case):
                     raise Violation(f"{where}: bucket {b_id!r} lists events {evs}, model has {sorted(ent['events'])}")
     classes = [be] + [k for k, v in flags.items() if v]
     return {"nontrivial": flags["recreate_after_events"] > 0 or flags["stale_used"] > 0, "classes": classes, "evals": len(case["ops"])}
+
+
+# ---------------------------------------------------------------------------
+# exhaustive small scope: every history up to a length over a small alphabet, on each backend
+
+_C = dict(type="t", client="c", hostname="h", created_us=1_600_000_000_000_000, created_off=120)
+ALPHABET = [
+    dict(op="create", b=0, nonlive=False, chk=True, name=None, data=None, **_C),
+    dict(op="create", b=0, nonlive=False, chk=False, name="nm", data={"k": {"n": [1]}}, **_C),
+    dict(op="update", b=0, nonlive=False, chk=True, fields={"name": "x"}),
+    dict(op="update", b=0, nonlive=False, chk=False, fields={"data": {"k": 1}, "hostname": "y"}),
+    dict(op="delete", b=0, nonlive=False, chk=True),
+    dict(op="delete", b=0, nonlive=True, chk=False),
+    dict(op="write", b=0, nonlive=False, chk=False, events=[{"slot": 1, "dur_s": 1, "data": {"k": "A"}}, {"slot": 2, "dur_s": 0, "data": {}}]),
+    dict(op="write", b=0, nonlive=False, chk=True, events=[{"slot": 0, "dur_s": 2, "data": {"k": "A"}}]),
+    dict(op="lookup", b=0, nonlive=False, chk=True),
+    dict(op="stale", b=0, nonlive=False, chk=True),
+    dict(op="create", b=1, nonlive=False, chk=False, name=None, data=None, **_C),
+]
+EXHAUSTIVE_NOTE = f"extra phase 'small_scope': every history of length <= L over an alphabet of {len(ALPHABET)} operations (create plain / with name+data, update name / data+hostname, delete live / missing, write two / one events with and without a following check, lookup, stale describe, create a second bucket) on every backend (quick L=3: 1 463 histories x 3 backends; thorough L=4: 16 104 x 3)"
+
+
+def extra_phases(tier, seed, jobs):
+    return [("small_scope", "phase_small_scope", [{"i": i, "n": jobs, "L": 3 if tier == "quick" else 4} for i in range(jobs)])]
+
+
+def phase_small_scope(task):
+    import itertools
+
+    st_ = Stats()
+    k = 0
+    for L in range(1, task["L"] + 1):
+        for combo in itertools.product(range(len(ALPHABET)), repeat=L):
+            k += 1
+            if k % task["n"] != task["i"]:
+                continue
+            ops = [json.loads(json.dumps(ALPHABET[j])) for j in combo]
+            for be in stores.BACKENDS:
+                case = {"backend": be, "ops": ops}
+                try:
+                    run_case(case)
+                except Violation as v:
+                    st_.failure = {"kind": "case", "case": case, "message": v.msg}
+                    return st_
+                st_.evals += 1
+            st_.cases += 1
+    st_.classes["histories_enumerated"] = st_.cases
+    st_.notes["histories_enumerated"] = st_.cases
+    return st_
